@@ -138,7 +138,15 @@ def setup_recursive_safe_function(
         cls = tuple([(a.__class__, a) for a in tp.args]) if is_generic else tp.origin
         recursion_guard = extras['recursion_guard']
 
-        if (_fn_name := recursion_guard.get(cls)) is None:
+        # A date/time pattern in scope (`Annotated[..., Pattern[...]]`) is
+        # baked into the generated helper, so the helper is specific to
+        # that pattern: another field that reaches the same NamedTuple /
+        # TypedDict / Union type with a different pattern (or without one)
+        # must not re-use it.
+        pb = None if fn_name else extras.get('pattern')
+        guard_key = cls if pb is None else (cls, pb)
+
+        if (_fn_name := recursion_guard.get(guard_key)) is None:
             cls_name = extras['cls_name']
             tp_name = func.__name__.split('_', 2)[-1]
 
@@ -152,7 +160,10 @@ def setup_recursive_safe_function(
                     else f'_load_{cls_name}_{tp_name}_{tp.name}'
                 )
 
-            recursion_guard[cls] = _fn_name
+            if pb is not None:
+                _fn_name = f'{_fn_name}_p{len(recursion_guard)}'
+
+            recursion_guard[guard_key] = _fn_name
 
             # Retrieve the main FunctionBuilder
             main_fn_gen = extras['fn_gen']
